@@ -37,6 +37,15 @@ Proof.
   destruct (lru_get k (m_conc m)) as [c1 [c|]]; split; reflexivity.
 Qed.
 
+Lemma metrics_of_aset rules s res ms res' clk live n :
+  metrics_of rules {| s_metrics := aset res ms (s_metrics s); s_live := live; s_clk := clk; s_nops := n |} res' =
+  if res' =? res then ms else metrics_of rules s res'.
+Proof.
+  unfold metrics_of. cbn [s_metrics]. destruct (res' =? res) eqn:E.
+  - assert (res' = res) by lia. subst. now rewrite alookup_aset_same.
+  - rewrite alookup_aset_other by lia. reflexivity.
+Qed.
+
 Section Invariant.
 Variable P : rule -> metric -> Prop.
 Variable okb : Z -> Prop.
@@ -99,14 +108,6 @@ Proof. intros res. unfold metrics_of. cbn. apply ms_ok_init. Qed.
 
 Definition op_ok (o : op) : Prop := match o with Enter _ q => okb (q_batch q) | _ => True end.
 
-Lemma metrics_of_aset rules s res ms res' clk live n :
-  metrics_of rules {| s_metrics := aset res ms (s_metrics s); s_live := live; s_clk := clk; s_nops := n |} res' =
-  if res' =? res then ms else metrics_of rules s res'.
-Proof.
-  unfold metrics_of. cbn [s_metrics]. destruct (res' =? res) eqn:E.
-  - assert (res' = res) by lia. subst. now rewrite alookup_aset_same.
-  - rewrite alookup_aset_other by lia. reflexivity.
-Qed.
 
 Lemma step_ok rules adv s o : op_ok o -> state_ok rules s ->
   state_ok rules (fst (step rules adv s o)) /\ snd (step rules adv s o) <> OSpin.
